@@ -135,6 +135,9 @@ func c02Logs(thorough bool) []c02Log {
 		// a ban on a session host: the mask is stored twice (host pattern and the session's address at that
 		// moment); both have to come back from a snapshot state
 		c02MakeLog("host-ban", [][]string{setup, join, {"A: MODE #c +b *!*@robust/{B}", "B: PART #c", "A: MODE #c +b nobody!*@*"}, {"A: TOPIC #c :later"}}, []int{0, 1, 2, 100}, []int{2, 0, 0, 0}),
+		// a PING has side effects when it is applied: it closes a session that is still unregistered ten minutes
+		// after its creation (B here); folding such an entry has to have them as well
+		c02MakeLog("stale-ping", [][]string{setup, {"+B", "A: JOIN #c"}, {"B: PING keepalive", "A: TOPIC #c :t"}, {"A: PRIVMSG #c :later"}}, []int{0, 1, 2, 100}, []int{2, 0, 0, 0}),
 		// all new: nothing may ever be folded
 		c02MakeLog("all-new", [][]string{setup, join}, []int{100, 101}, []int{2, 0}),
 	}
